@@ -6,6 +6,7 @@ import Iota.Tie.Expect
 import Iota.Model.Slip10
 import Iota.Proofs.Vectors.Slip10
 import Iota.Tie.C17
+import Iota.Tie.EllipticKeyCode
 
 namespace Iota.Tie.Slip10
 open Iota
@@ -26,17 +27,14 @@ theorem src :
     Gen.Slip10.src_slip10_uint32Bytes = Expect.Slip10_src_slip10_uint32Bytes ∧
     Gen.Slip10.src_slip10_hmacSHA512 = Expect.Slip10_src_slip10_hmacSHA512 ∧
     Gen.Slip10.src_slip10_hash160 = Expect.Slip10_src_slip10_hash160 ∧
-    Gen.Slip10.src_elliptic_Curve_NewPrivateKey = Expect.Slip10_src_elliptic_Curve_NewPrivateKey ∧
     Gen.Slip10.src_elliptic_secp256k1Curve_HmacKey = Expect.Slip10_src_elliptic_secp256k1Curve_HmacKey ∧
     Gen.Slip10.src_elliptic_nist256p1Curve_HmacKey = Expect.Slip10_src_elliptic_nist256p1Curve_HmacKey ∧
     Gen.Slip10.src_elliptic_PrivateKey_Bytes = Expect.Slip10_src_elliptic_PrivateKey_Bytes ∧
     Gen.Slip10.src_elliptic_PrivateKey_IsPrivate = Expect.Slip10_src_elliptic_PrivateKey_IsPrivate ∧
     Gen.Slip10.src_elliptic_PrivateKey_Public = Expect.Slip10_src_elliptic_PrivateKey_Public ∧
-    Gen.Slip10.src_elliptic_PrivateKey_Shift = Expect.Slip10_src_elliptic_PrivateKey_Shift ∧
     Gen.Slip10.src_elliptic_PublicKey_Bytes = Expect.Slip10_src_elliptic_PublicKey_Bytes ∧
     Gen.Slip10.src_elliptic_PublicKey_IsPrivate = Expect.Slip10_src_elliptic_PublicKey_IsPrivate ∧
     Gen.Slip10.src_elliptic_PublicKey_Public = Expect.Slip10_src_elliptic_PublicKey_Public ∧
-    Gen.Slip10.src_elliptic_PublicKey_Shift = Expect.Slip10_src_elliptic_PublicKey_Shift ∧
     Gen.Slip10.src_eddsa_ed25519Curve_NewPrivateKey = Expect.Slip10_src_eddsa_ed25519Curve_NewPrivateKey ∧
     Gen.Slip10.src_eddsa_ed25519Curve_HmacKey = Expect.Slip10_src_eddsa_ed25519Curve_HmacKey ∧
     Gen.Slip10.src_eddsa_Seed_Bytes = Expect.Slip10_src_eddsa_Seed_Bytes ∧
@@ -49,7 +47,7 @@ theorem src :
     Gen.Slip10.src_eddsa_PublicKey_Public = Expect.Slip10_src_eddsa_PublicKey_Public ∧
     Gen.Slip10.src_eddsa_PublicKey_HardenedOnly = Expect.Slip10_src_eddsa_PublicKey_HardenedOnly ∧
     Gen.Slip10.src_eddsa_PublicKey_Shift = Expect.Slip10_src_eddsa_PublicKey_Shift :=
-  ⟨rfl, rfl, rfl, rfl, rfl, rfl, rfl, rfl, rfl, rfl, rfl, rfl, rfl, rfl, rfl, rfl, rfl, rfl, rfl, rfl, rfl, rfl, rfl, rfl, rfl, rfl, rfl, rfl, rfl, rfl, rfl, rfl⟩
+  ⟨rfl, rfl, rfl, rfl, rfl, rfl, rfl, rfl, rfl, rfl, rfl, rfl, rfl, rfl, rfl, rfl, rfl, rfl, rfl, rfl, rfl, rfl, rfl, rfl, rfl, rfl, rfl, rfl, rfl⟩
 
 /-- everything else the package declares (imports, constants, types, variables, build constraints and the functions not
 pinned one by one) is unchanged too: no declaration of the modelled packages can change without a tie theorem failing. -/
@@ -69,5 +67,36 @@ theorem secp256k1_code {inv : Int → Int → Option Int} (E : Tie.SecpCode.Exte
     (∀ k : List UInt8, Gen.Secp256k1Code.btccurve.koblitzCurve_ScalarBaseMult inv Secp256k1.P Secp256k1.Gx Secp256k1.Gy
         (k.map UInt8.toBitVec) = Secp256k1.scalarBaseMult k) :=
   ⟨Tie.C17.copies_identical, Tie.C17.code_add E, Tie.C17.code_scalarBaseMult E⟩
+
+/-! ### pkg/slip10/elliptic — `Curve.NewPrivateKey`, `PrivateKey.Shift`, `PublicKey.Shift` — translated AS CODE = the model
+(`Gen.EllipticKeyCode.key.*` in `Iota/Gen/EllipticKeyCode.lean`, stage 13 of the translator: receivers with `*big.Int` fields
+and an `elliptic.Curve` field; `Params().N`, `ScalarBaseMult` and `Add` of that FOREIGN interface are parameters; the result
+`slip10.Key` is `none` for nil, `some (0, [K])` for a new `*PrivateKey`, `some (1, [X, Y])` for a new `*PublicKey`).
+`Externs w coords sbm add` says that the two curve methods compute the model curve's `baseMul` / `add` in the affine
+coordinates `coords` and that the point at infinity is (0, 0).  Proofs: `Iota/Tie/EllipticKeyCode.lean`; for secp256k1 the
+assumption is DISCHARGED with the generated curve code: `Iota/Tie/E2E/Slip10Secp.lean`.  Not pinned by source text. -/
+
+open Iota.Tie.Bech32Code (bv)
+open Iota.Tie.EllipticKeyCode (Externs encKey)
+open Iota.Slip10 (Bytes WCurve WKey wCurve)
+
+/-- **`NewPrivateKey` as code = the model: `ErrInvalidKey` exactly for the values 0 and ≥ N; cannot panic.** -/
+theorem code_newPrivateKey {Pt : Type} (w : WCurve Pt) (hk : Bytes) (coords : Pt → Int × Int) (buf : Bytes) :
+    Gen.EllipticKeyCode.key.Curve_NewPrivateKey (w.n : Int) (bv buf) = encKey coords ((wCurve w hk).newPrivateKey buf) :=
+  EllipticKeyCode.code_newPrivateKey w hk coords buf
+
+/-- **`PrivateKey.Shift` as code = the model, for every scalar and every byte string; never panics (N > 0).** -/
+theorem code_privateShift {Pt : Type} (w : WCurve Pt) (hk : Bytes) (coords : Pt → Int × Int) (hn : 0 < w.n) (k : Nat) (buf : Bytes) :
+    Gen.EllipticKeyCode.key.PrivateKey_Shift (w.n : Int) (k : Int) (bv buf) =
+      some (encKey coords ((wCurve w hk).shift (.priv k) buf)) :=
+  EllipticKeyCode.code_privateShift w hk coords hn k buf
+
+/-- **`PublicKey.Shift` as code = the model, for every point and every byte string; never panics.** -/
+theorem code_publicShift {Pt : Type} (w : WCurve Pt) (hk : Bytes) (coords : Pt → Int × Int)
+    {sbm : List (BitVec 8) → Option (Int × Int)} {add : Int → Int → Int → Int → Option (Int × Int)}
+    (E : Externs w coords sbm add) (p : Pt) (buf : Bytes) :
+    Gen.EllipticKeyCode.key.PublicKey_Shift add (w.n : Int) sbm (coords p).1 (coords p).2 (bv buf) =
+      some (encKey coords ((wCurve w hk).shift (.pub p) buf)) :=
+  EllipticKeyCode.code_publicShift w hk coords E p buf
 
 end Iota.Tie.Slip10
